@@ -9,6 +9,7 @@ import (
 	"os"
 	"strconv"
 	"sync"
+	"time"
 )
 
 var (
@@ -19,7 +20,8 @@ var (
 // Boundary is called immediately before a file or directory is created, written or removed.
 // With GOAT_VERIF_WRITELOG set it appends "<n> <op> <path>" to that file; with
 // GOAT_VERIF_CRASH_AT=k the process exits with status 97 at the k-th boundary (1-based),
-// before the operation is performed.
+// before the operation is performed (operations of other goroutines that are already past their
+// boundary are allowed to finish first).
 func Boundary(op string, path string) {
 	mu.Lock()
 	defer mu.Unlock()
@@ -32,6 +34,10 @@ func Boundary(op string, path string) {
 	}
 	if s := os.Getenv("GOAT_VERIF_CRASH_AT"); s != "" {
 		if k, err := strconv.Atoi(s); err == nil && k == n {
+			// whole-file crash granularity also with several workers: writes that already
+			// passed their boundary are given time to complete, every other worker is held
+			// at its next boundary by mu (still locked here)
+			time.Sleep(150 * time.Millisecond)
 			os.Exit(97)
 		}
 	}
